@@ -519,6 +519,15 @@ def auto_traits(root):
         if ret != "impl ExactSizeDoubleEndedIterator<Item = impl ExactSizeDoubleEndedIterator<Item = &mut T>>":
             problems.append(fn + ": return type not the recognised opaque type: " + ret)
         body = re.sub(r"\s+", " ", text[text.index("{"):])
+        # spellings of the same dispatch: a local holding the order, `if self.order ==/!= Order::X { A } else { B }`
+        al = re.match(r"\{ let (\w+) = self\.order; ", body)
+        if al:
+            body = "{ " + re.sub(r"\b%s\b" % re.escape(al.group(1)), "self.order", body[al.end():])
+        fi = re.fullmatch(r"\{ if self\.order (==|!=) Order::(RowMajor|ColMajor) \{ ([^{};,]+) \} else \{ ([^{};,]+) \} \}", body)
+        if fi:
+            oth = "ColMajor" if fi.group(2) == "RowMajor" else "RowMajor"
+            a, b2 = (fi.group(3), fi.group(4)) if fi.group(1) == "==" else (fi.group(4), fi.group(3))
+            body = "{ match self.order { Order::%s => %s, Order::%s => %s, } }" % (fi.group(2), a.strip(), oth, b2.strip())
         arms = re.findall(r"Order::(RowMajor|ColMajor) => ([^,]+),", body)
         if not re.fullmatch(r"\{ match self\.order \{ (Order::\w+ => [^,]+, ){2}\} \}", body):
             problems.append(fn + ": body not a plain match on the order"); arms = [("?", body[:60].replace('"', "'"))]
